@@ -926,8 +926,12 @@ public:
         readPosition += sizeof(uint32_t);
       }
     } else if (version == 2) {
-      graphFile.read(reinterpret_cast<char*>(edgeDst.data()),
-                     sizeof(uint64_t) * numEdges);
+      // version 2 stores 64-bit destinations; edgeDst holds 32-bit node ids
+      for (uint64_t i = 0; i < numEdges; ++i) {
+        uint64_t dst;
+        graphFile.read(reinterpret_cast<char*>(&dst), sizeof(uint64_t));
+        edgeDst[i] = dst;
+      }
       readPosition =
           ((4 + numNodes) * sizeof(uint64_t) + numEdges * sizeof(uint64_t));
     } else {
@@ -997,8 +1001,12 @@ public:
       graphFile.read(reinterpret_cast<char*>(edgeDst.data()),
                      sizeof(uint32_t) * numEdges);
     } else if (version == 2) {
-      graphFile.read(reinterpret_cast<char*>(edgeDst.data()),
-                     sizeof(uint64_t) * numEdges);
+      // version 2 stores 64-bit destinations; edgeDst holds 32-bit node ids
+      for (uint64_t i = 0; i < numEdges; ++i) {
+        uint64_t dst;
+        graphFile.read(reinterpret_cast<char*>(&dst), sizeof(uint64_t));
+        edgeDst[i] = dst;
+      }
     } else {
       GALOIS_DIE("unknown file version: ", version);
     }
